@@ -200,7 +200,39 @@ func checkC11(w *World) {
 			w.check(P, "R11.2", fmt.Sprintf("lookup in %s in %s", field, fn.Name()), lk.Pos(), ok2, why)
 		})
 	})
-	w.floor(P, "R11.2", 6)
+	// GetQName: the only error is the unbound prefix; no package-level state
+	if gq := w.member("exec", "GetQName"); gq != nil {
+		nErr, nOK := 0, 0
+		allInstrs(gq, func(in ssa.Instruction) {
+			ret, ok := in.(*ssa.Return)
+			if !ok || len(ret.Results) != 2 || isNilConst(ret.Results[1]) {
+				return
+			}
+			nErr++
+			for _, a := range guardAtoms(ret.Block()) {
+				if ex, ok := a.V.(*ssa.Extract); ok && ex.Index == 1 && !a.Pol {
+					if _, isLk := ex.Tuple.(*ssa.Lookup); isLk {
+						nOK++
+					}
+				}
+			}
+		})
+		w.check(P, "R11.2", "GetQName fails only for an unbound prefix", gq.Pos(), nErr >= 1 && nErr == nOK, fmt.Sprintf("%d error returns, %d of them on a failed prefix lookup (any other rejection makes a bound name unusable: the lexer has already accepted the name)", nErr, nOK))
+		globals := ""
+		for g := range staticReach(gq, func(x *ssa.Function) bool { return inRepo(x) }) {
+			allInstrs(g, func(in ssa.Instruction) {
+				for _, op := range in.Operands(nil) {
+					if gl, ok := (*op).(*ssa.Global); ok && inRepoGlobal(gl) {
+						globals = gl.Name()
+					}
+				}
+			})
+		}
+		w.check(P, "R11.2", "GetQName depends only on its arguments", gq.Pos(), globals == "", "package-level variable used: "+orNone(globals)+" (a cache keyed by the lexical name survives rebinding of the prefix)")
+	} else {
+		w.undecided(P, "R11.2", "exec.GetQName", 0, "not found")
+	}
+	w.floor(P, "R11.2", 8)
 
 	// R11.3
 	w.nameTestGuards(P, f, r)
@@ -266,6 +298,14 @@ func checkC11(w *World) {
 
 	// R11.6
 	w.settingsOptions(P, r)
+}
+
+func inRepoGlobal(g *ssa.Global) bool {
+	if g.Pkg == nil {
+		return false
+	}
+	_, ok := relKey(g.Pkg.Pkg.Path())
+	return ok
 }
 
 func orNone(s string) string {
@@ -516,6 +556,16 @@ func (w *World) functionArgsInOrder(h *ssa.Function, r *Roles) (bool, string) {
 	}
 	if argEval == nil {
 		return false, "arguments are not evaluated in copies of the context inside a loop"
+	}
+	// a fresh copy per argument: the copy is made inside the same loop
+	freshPerArg := false
+	for _, st := range storesInto(argEval.CopyCtx) {
+		if st.Addr == ssa.Value(argEval.CopyCtx) && loops[st.Block()] {
+			freshPerArg = true
+		}
+	}
+	if !freshPerArg {
+		return false, "the context copy used for the arguments is made once outside the loop: every argument after the first is evaluated with the previous argument's result as its context"
 	}
 	// the evaluated expression is the loop element of the gathered list (ascending)
 	nx, ok := argEval.Call.Call.Args[1].(*ssa.Call)
